@@ -130,12 +130,31 @@ class FloatEval:
             if sp.simplify(x.m - self.absform(x.v)) != 0:
                 raise AnalysisBroken("abs() of an expression with cancellation (line %s)" % e.get("l"))
             return FNode(x.m, x.m, x.k, x.e, x.deg)
+        if k == "Bin" and e["op"] == "-":
+            # a difference of the same component of two input points is a leaf (exact for inputs in [1,2))
+            pa, pb = self.point_component(e["a"]), self.point_component(e["b"])
+            if pa is not None and pb is not None and pa[1] == pb[1]:
+                return self.leaf(pa[0], pb[0], pa[1])
         if k == "Bin" and e["op"] in ("+", "-", "*"):
             a, b = self.scalar(e["a"]), self.scalar(e["b"])
             if e["op"] == "*":
                 return self.mul(a, b)
             return self.add(a, b, -1 if e["op"] == "-" else 1)
         raise AnalysisBroken("scalar expression not understood: %s (line %s)" % (C.pretty(e), e.get("l")))
+
+    def point_component(self, e):
+        """(point name, component) when e is p.x() / p[i] of an input point."""
+        e = C.strip_casts(e)
+        if e.get("k") == "Call" and e.get("obj") is not None and not e["a"] and e.get("n") in ("x", "y", "z"):
+            o = C.strip_casts(e["obj"])
+            if o.get("k") == "Ref" and self.env.get(("l", o.get("id")), (None,))[0] == "pt":
+                return self.env[("l", o["id"])][1], "xyz".index(e["n"])
+        if e.get("k") == "Call" and e.get("op") == "[]" and e.get("obj") is not None and e["a"] and \
+                C.const_int(e["a"][0]) in (0, 1, 2):
+            o = C.strip_casts(e["obj"])
+            if o.get("k") == "Ref" and self.env.get(("l", o.get("id")), (None,))[0] == "pt":
+                return self.env[("l", o["id"])][1], C.const_int(e["a"][0])
+        return None
 
     def absform(self, v):
         """|monomial| as product of the leaves' absolute-value symbols (only for products of leaves / constants)."""
